@@ -132,6 +132,7 @@ def make_strategy():
 
 def to_case(v):
     (lang, toks), lseed, cseed = v
+    cseed = family.cfg_seed(cseed)
     rng = random.Random(lseed)
     src, r = layout.render(toks, rng, lang, dict(p_cmt=rng.choice([0.0, 0.08, 0.25]), bs_cmt=0.0, p_nl_slot=rng.choice([0.05, 0.25])))
     cfgd, kind = draw_cfg(random.Random(cseed))
@@ -153,8 +154,9 @@ def compilable(item):
 
 def main(ctx):
     quick = ctx.tier == 'quick'
-    rng = random.Random(core.subseed(ctx.seed, 'c01'))
+    rng = random.Random(core.subseed(ctx.useed, 'c01'))
     _EX.update(family.exclusions(ctx))
+    family.set_tier(ctx)
     _SINGLES.extend(single_settings())
     ctx.rule = ('case = (compilable program, language, configuration); judged: uncrustify exit status and object code of output vs input; non-trivial = '
                 'the output bytes differ from the input and the program has >= 30 tokens; distinct by sha256(source, language, config)')
@@ -172,7 +174,7 @@ def main(ctx):
     for rel, lang in comp:
         src = corpus.read(rel)
         for i in range(ncfg):
-            cfgd, kind = draw_cfg(random.Random(core.subseed(ctx.seed, 'corpus', rel, i))) if i else ({}, 'default')
+            cfgd, kind = draw_cfg(random.Random(core.subseed(ctx.useed, 'corpus', rel, i))) if i else ({}, 'default')
             cases.append(family.Case(src, lang, c_domain(cfgd, lang), {'kind': 'corpus', 'file': rel, 'cfgkind': kind}))
     # single-option sweep over the compilable corpus (each setting on a few files)
     singles = list(_SINGLES)
